@@ -19,7 +19,8 @@ META = {
              "digits, int/float/numpy epoch seconds, datetime64[s|ms|us|ns]) and into list/tuple/ndarray/"
              "DataArray/Series containers, homogeneous and mixed; packed integers from generated calendar "
              "fields. Non-trivial = non-zero UTC offset, or fractional second, or within one day of a "
-             "month/year boundary. Distinct = sha1 of the case."),
+             "month/year boundary. Distinct = sha1 of the case."
+             " Representations include pandas Timestamps, zoneinfo zones with daylight saving, int32 epochs, datetime64 in minutes/hours/days, and sequences mixed within one family of representations."),
     "assumptions": [
         "expected instant is integer arithmetic on microseconds since the epoch; the stdlib datetime/timedelta arithmetic is trusted",
         "float epoch seconds compared within 1 microsecond (double spacing near 4e9 s is 4.8e-7 s)",
